@@ -265,6 +265,7 @@ func (p *Prog) keyOf1(v ssa.Value, env *KeyEnv, depth int, busy map[ssa.Value]bo
 		type cp struct {
 			pos token.Pos
 			src ssa.Value
+			b   ssa.Value // a single byte stored at a constant index
 		}
 		var cps []cp
 		for _, r := range *x.Referrers() {
@@ -275,17 +276,45 @@ func (p *Prog) keyOf1(v ssa.Value, env *KeyEnv, depth int, busy map[ssa.Value]bo
 			for _, rr := range *sl.Referrers() {
 				if c, ok := rr.(*ssa.Call); ok {
 					if b, ok := c.Call.Value.(*ssa.Builtin); ok && b.Name() == "copy" && c.Call.Args[0] == sl {
-						cps = append(cps, cp{c.Pos(), c.Call.Args[1]})
+						cps = append(cps, cp{c.Pos(), c.Call.Args[1], nil})
 					}
 				}
 			}
 		}
+		// key[i] = b with constant i: one byte laid down at its place in the source order of the pieces
+		for _, r := range *x.Referrers() {
+			ia, ok := r.(*ssa.IndexAddr)
+			if !ok {
+				continue
+			}
+			if _, isConst := constInt(ia.Index); !isConst {
+				continue
+			}
+			for _, rr := range *ia.Referrers() {
+				if st, ok := rr.(*ssa.Store); ok && st.Addr == ssa.Value(ia) {
+					cps = append(cps, cp{st.Pos(), nil, st.Val})
+				}
+			}
+		}
 		if len(cps) == 0 {
+			if n, ok := constInt(x.Len); ok && n == 0 {
+				// make([]byte, 0, n): the empty prefix of an append chain
+				return &Key{}
+			}
 			return unknownKey("make without copy")
 		}
 		sort.Slice(cps, func(i, j int) bool { return cps[i].pos < cps[j].pos })
 		var ks []*Key
 		for _, c := range cps {
+			if c.b != nil {
+				rv, _ := resolveParam(c.b, env)
+				if n, ok := constInt(rv); ok {
+					ks = append(ks, &Key{Parts: []Part{{Kind: "const", Const: []byte{byte(n)}}}})
+				} else {
+					ks = append(ks, &Key{Parts: []Part{{Kind: "byte", Val: c.b}}})
+				}
+				continue
+			}
 			ks = append(ks, p.keyOf(c.src, env, depth+1, busy))
 		}
 		return concatKeys(ks...)
@@ -428,6 +457,18 @@ func (p *Prog) callKey(c *ssa.Call, result int, env *KeyEnv, depth int, busy map
 	args := cc.Args
 	switch {
 	case d.Pkg == "builtin" && d.Name == "append":
+		if b, ok := args[1].Type().Underlying().(*types.Basic); ok && b.Info()&types.IsString != 0 {
+			// append(bz, s...): the bytes of a string
+			rv, renv := resolveParam(args[1], env)
+			if cst, ok := rv.(*ssa.Const); ok && cst.Value != nil && cst.Value.Kind() == constant.String {
+				return concatKeys(p.keyOf(args[0], env, depth+1, busy), &Key{Parts: []Part{{Kind: "const", Const: []byte(constant.StringVal(cst.Value))}}})
+			}
+			kind := "str"
+			if n := NamedOf(rv.Type()); n != nil && n.Obj().Name() == "ChainID" {
+				kind = "chain"
+			}
+			return concatKeys(p.keyOf(args[0], env, depth+1, busy), &Key{Parts: []Part{{Kind: kind, Val: rv, Env: renv}}})
+		}
 		return concatKeys(p.keyOf(args[0], env, depth+1, busy), p.keyOf(args[1], env, depth+1, busy))
 	case d.Is("bytes", "", "Join"):
 		sep := p.keyOf(args[1], env, depth+1, busy)
@@ -611,6 +652,10 @@ type StoreOp struct {
 	Key   *Key   // full key (Get/Has/Set/Delete) or iteration prefix
 	Store string // identity of the store: name of the keeper type whose storeKey opens it ("?" if unknown)
 	Value ssa.Value
+	// iterators with an explicit end bound: the key the end is the PrefixEndBytes of (EndOpen: the end is
+	// some other expression), nil when the end argument is nil
+	End     *Key
+	EndOpen bool
 }
 
 // IsWrite reports Set/Delete.
@@ -638,6 +683,11 @@ func isKVStoreType(t types.Type) (iface bool, prefixStore bool) {
 
 // storeBase walks a store value back to ctx.KVStore(key) collecting prefixes.
 func (p *Prog) storeBase(v ssa.Value, depth int) (store string, prefix *Key) {
+	return p.storeBaseEnv(v, nil, depth)
+}
+
+// storeBaseEnv is storeBase inside a module helper that returns a store (env binds its parameters).
+func (p *Prog) storeBaseEnv(v ssa.Value, env *KeyEnv, depth int) (store string, prefix *Key) {
 	prefix = &Key{}
 	if depth > 8 {
 		return "?", unknownKey("store depth")
@@ -652,19 +702,36 @@ func (p *Prog) storeBase(v ssa.Value, depth int) (store string, prefix *Key) {
 			return storeKeyOwner(x.Call.Args[len(x.Call.Args)-1]), prefix
 		}
 		if d.Name == "NewStore" && strings.HasSuffix(d.Pkg, "store/prefix") {
-			st, pre := p.storeBase(x.Call.Args[0], depth+1)
-			return st, concatKeys(pre, p.KeyOf(x.Call.Args[1]))
+			st, pre := p.storeBaseEnv(x.Call.Args[0], env, depth+1)
+			return st, concatKeys(pre, p.keyOf(x.Call.Args[1], env, 0, map[ssa.Value]bool{}))
+		}
+		// a module helper that opens the (prefix) store for its callers
+		if fn := x.Call.StaticCallee(); fn != nil && p.isMod[fn] && fn.Blocks != nil {
+			for e := env; e != nil; e = e.Parent {
+				if e.Fn == fn {
+					return "?", unknownKey("recursive store helper")
+				}
+			}
+			var rets []*ssa.Return
+			Instrs(fn, func(in ssa.Instruction) {
+				if r, ok := in.(*ssa.Return); ok {
+					rets = append(rets, r)
+				}
+			})
+			if len(rets) == 1 && len(rets[0].Results) == 1 {
+				return p.storeBaseEnv(rets[0].Results[0], &KeyEnv{Fn: fn, Site: x, Parent: env}, depth+1)
+			}
 		}
 		return "?", unknownKey("store from " + d.String())
 	case *ssa.MakeInterface:
-		return p.storeBase(x.X, depth+1)
+		return p.storeBaseEnv(x.X, env, depth+1)
 	case *ssa.ChangeInterface:
-		return p.storeBase(x.X, depth+1)
+		return p.storeBaseEnv(x.X, env, depth+1)
 	case *ssa.Phi:
 		var st string
 		var k *Key
 		for _, e := range x.Edges {
-			s2, k2 := p.storeBase(e, depth+1)
+			s2, k2 := p.storeBaseEnv(e, env, depth+1)
 			if k == nil {
 				st, k = s2, k2
 			} else if s2 != st || k.String() != k2.String() {
@@ -685,7 +752,7 @@ func (p *Prog) storeBase(v ssa.Value, depth int) (store string, prefix *Key) {
 				}
 			}
 			if n == 1 {
-				return p.storeBase(st.Val, depth+1)
+				return p.storeBaseEnv(st.Val, env, depth+1)
 			}
 		}
 	}
@@ -774,6 +841,19 @@ func (p *Prog) StoreOps(fn *ssa.Function) []StoreOp {
 			// start bound gives the prefix when not nil
 			start := p.KeyOf(args[0])
 			op.Key = concatKeys(pre, start)
+			if len(args) > 1 {
+				if k, isC := args[1].(*ssa.Const); !isC || k.Value != nil {
+					end := args[1]
+					if call, ok := end.(*ssa.Call); ok {
+						if d, okd := Describe(&call.Call); okd && d.Name == "PrefixEndBytes" && len(call.Call.Args) == 1 {
+							op.End = concatKeys(pre, p.KeyOf(call.Call.Args[0]))
+						}
+					}
+					if op.End == nil {
+						op.EndOpen = true
+					}
+				}
+			}
 		default:
 			op.Key = concatKeys(pre, p.KeyOf(args[0]))
 			if name == "Set" && len(args) > 1 {
